@@ -40,6 +40,82 @@ def register(gen, T):
         simp = normws(fn_body(simplify, "simplify_cbuffers"))
         ty_globals = normws(T.src("typer/src/typer/globals.rs"))
         ty_pipes = normws(fn_body(T.src("typer/src/typer/pipelines.rs"), "parse_pipeline"))
+        ty_src = T.src("typer/src/typer/globals.rs")
+        ty_gv = normws(fn_body(ty_src, "parse_rootdefinition_globalvariable"))
+        ty_cb = normws(fn_body(ty_src, "parse_rootdefinition_constantbuffer"))
+        ty_attr = normws(fn_body(ty_src, "parse_attributes_for_global"))
+        ty_insert = normws(fn_body(T.src("typer/src/typer/scopes.rs"), "insert_global"))
+
+        # the annotation loop of one declarator of a global-variable declaration (Model.SlotsFront.annotate)
+        gv_ann_loop = (
+            "for location_annotation in &global_variable.location_annotations { match location_annotation { "
+            "ast::LocationAnnotation::Register(register) => { "
+            "let unmodified_base_id = context.module.type_registry.remove_modifier(base_id); "
+            "let unmodified_base_tyl = context .module .type_registry .get_type_layer(unmodified_base_id); "
+            "if let ir::TypeLayer::Object(ot) = unmodified_base_tyl && let Some(expected_slot_type) = ot.get_register_type() { "
+            "let index = if let Some(slot) = &register.slot { if slot.slot_type != expected_slot_type { "
+            "return Err(TyperError::InvalidRegisterType( slot.slot_type, expected_slot_type, name.location, )); } "
+            "Some(slot.index) } else { None }; "
+            "let new_binding = ir::LanguageBinding { set: register.space, index, }; "
+            "if gv_ir.lang_slot != ir::LanguageBinding::default() && gv_ir.lang_slot != new_binding { "
+            "return Err(TyperError::InvalidRegisterAnnotation( type_id, name.location, )); } "
+            "gv_ir.lang_slot = new_binding; } else { "
+            "return Err(TyperError::InvalidRegisterAnnotation( type_id, name.location, )); } } "
+            "ast::LocationAnnotation::PackOffset(_) => { return Err(TyperError::UnexpectedPackOffset(name.location)); } "
+            "ast::LocationAnnotation::Semantic(_) => { return Err(TyperError::UnexpectedSemantic(name.location)); } } }")
+        # what follows it up to the end of the function (Model.SlotsFront.applyOverrides, the static-sampler check)
+        gv_tail = (
+            " if let Some(binding_index) = attribute_result.binding_index_override { gv_ir.lang_slot.index = Some(binding_index); } "
+            "if let Some(binding_group) = attribute_result.binding_group_override { gv_ir.lang_slot.set = Some(binding_group); } "
+            "gv_ir.init = var_init; gv_ir.static_sampler = static_sampler; gv_ir.constexpr_value = evaluated_value; "
+            "gv_ir.is_bindless = attribute_result.is_bindless; "
+            "if gv_ir.static_sampler.is_some() && gv_ir.lang_slot.index.is_some() { "
+            "return Err(TyperError::StaticSamplerUnexpectedBindingIndex( name.location, )); } "
+            "defs.push(ir::RootDefinition::GlobalVariable(var_id)); } Ok(defs)")
+        ATTR_FN = ('let mut result = GlobalAttributeResult { binding_index_override: None, binding_group_override: None, is_bindless: false, }; for attribute in attributes { match attribute.name.as_slice() { [namespace, leaf] => { match namespace.node.as_str() { "rssl" => { match leaf.as_str() { "bind_group" => { if attribute.arguments.len() == 1 { let group_index = parse_expr_as_u32(&attribute.arguments[0], context)?; result.binding_group_override = Some(group_index); } else { return Err( TyperError::GlobalAttributeUnexpectedArgumentCount( leaf.node.clone(), leaf.location, ), ); } } "bindless" => { if attribute.arguments.is_empty() { result.is_bindless = true; } else { return Err( TyperError::GlobalAttributeUnexpectedArgumentCount( leaf.node.clone(), leaf.location, ), ); } } _ => { return Err(TyperError::GlobalAttributeUnknown( leaf.node.clone(), leaf.location, )); } } } "vk" => { match leaf.as_str() { "binding" => { if attribute.arguments.len() == 1 { let binding_index = parse_expr_as_u32(&attribute.arguments[0], context)?; result.binding_index_override = Some(binding_index); } else if attribute.arguments.len() == 2 { let binding_index = parse_expr_as_u32(&attribute.arguments[0], context)?; let group_index = parse_expr_as_u32(&attribute.arguments[1], context)?; result.binding_index_override = Some(binding_index); result.binding_group_override = Some(group_index); } else { return Err( TyperError::GlobalAttributeUnexpectedArgumentCount( leaf.node.clone(), leaf.location, ), ); } } _ => { return Err(TyperError::GlobalAttributeUnknown( leaf.node.clone(), leaf.location, )); } } } _ => { return Err(TyperError::GlobalAttributeUnknown( namespace.node.clone(), namespace.location, )); } } } [first, ..] => { return Err(TyperError::GlobalAttributeUnknown( first.node.clone(), first.location, )); } _ => panic!("Attribute with no name"), } } Ok(result)')
+        U32_FN = ('let expr_ir = parse_expr(expr, context)?.0; let evaluated = match evaluate_constexpr(&expr_ir, &mut context.module) { Ok(value) => value, Err(_) => return Err(TyperError::ExpressionIsNotConstantExpression(expr.location)), }; let value = match evaluated.to_uint64() { Some(v) if v <= u32::MAX as u64 => v as u32, _ => return Err(TyperError::ExpressionIsNotConstantExpression(expr.location)), }; Ok(value)')
+        # the storage-class loop of parse_globaltype (Model.SlotsFront.storageLoop / isExternStorage)
+        STORAGE_LOOP = ('let mut global_storage = None; for modifier in &global_type.modifiers.modifiers { let next_gs = match &modifier.node { ast::TypeModifier::Extern => ir::GlobalStorage::Extern, ast::TypeModifier::Static => ir::GlobalStorage::Static, ast::TypeModifier::GroupShared => ir::GlobalStorage::GroupShared, _ => continue, }; if let Some((current_gs, current_source)) = global_storage { if current_gs == next_gs { } else { return Err(TyperError::ModifierConflict( modifier.node, modifier.location, current_source, )); } } else { global_storage = Some((next_gs, modifier.node)); } } let global_storage = global_storage .map(|(gs, _)| gs) .unwrap_or(ir::GlobalStorage::Extern);')
+        CB_BINDLESS_TAIL = ('if attribute_result.is_bindless { let location = cb .attributes .iter() .filter_map(|attribute| attribute.name.last()) .find(|leaf| leaf.node == "bindless") .map(|leaf| leaf.location) .unwrap_or(cb_ir.name.location); return Err(TyperError::GlobalAttributeUnknown( String::from("bindless"), location, )); } cb_ir.members = members; context.insert_cbuffer(id)?; Ok(ir::RootDefinition::ConstantBuffer(id))')
+        def lang_binding_writers():
+            import os
+            assigns, inits = [], []
+            for top in ["typer/src", "ir/src", "src", "hlsl/src", "msl/src", "parser/src", "ast/src"]:
+                root = os.path.join(T.REPO, top)
+                for dirpath, _, files in sorted(os.walk(root)):
+                    for fn in sorted(files):
+                        if not fn.endswith(".rs"):
+                            continue
+                        rel = os.path.relpath(os.path.join(dirpath, fn), T.REPO)
+                        text = normws(T.src(rel))
+                        n = len(re.findall(r'\blang_(?:slot|binding)(?:\s*\.\s*\w+)?\s*=(?!=)', text))
+                        if n:
+                            assigns.append((rel, n))
+                        for m in re.finditer(r'\blang_(?:slot|binding): ([^,}]*),', text):
+                            if m.group(1).strip() != "LanguageBinding":   # the field declarations of the two structs
+                                inits.append((rel, m.group(1).strip()))
+            return (sorted(assigns), sorted(inits))
+
+        ty_storage = normws(fn_body(ty_src, "parse_globaltype"))
+        ty_u32 = normws(fn_body(ty_src, "parse_expr_as_u32"))
+        gv_fresh = ("let var_id = context.insert_global(name.clone(), type_id, storage_class)?; "
+                    "let gv_ir = &mut context.module.global_registry[var_id.0 as usize]; ")
+        cb_ann_loop = (
+            "let cb_ir = &mut context.module.cbuffer_registry[id.0 as usize]; "
+            "for location_annotation in &cb.location_annotations { match location_annotation { "
+            "ast::LocationAnnotation::Register(register) => { "
+            "let index = if let Some(slot) = &register.slot { if slot.slot_type != ir::RegisterType::B { "
+            "return Err(TyperError::InvalidRegisterType( slot.slot_type, ir::RegisterType::B, cb.name.location, )); }; "
+            "Some(slot.index) } else { None }; "
+            "let new_binding = ir::LanguageBinding { set: register.space, index, }; "
+            "if cb_ir.lang_binding != ir::LanguageBinding::default() && cb_ir.lang_binding != new_binding { "
+            "return Err(TyperError::UnexpectedRegisterAnnotation( cb_ir.name.location, )); } "
+            "cb_ir.lang_binding = new_binding; } "
+            "ast::LocationAnnotation::PackOffset(_) => { return Err(TyperError::UnexpectedPackOffset(cb_ir.name.location)); } "
+            "ast::LocationAnnotation::Semantic(_) => { return Err(TyperError::UnexpectedSemantic(cb_ir.name.location)); } } } "
+            "if let Some(binding_index) = attribute_result.binding_index_override { cb_ir.lang_binding.index = Some(binding_index); } "
+            "if let Some(binding_group) = attribute_result.binding_group_override { cb_ir.lang_binding.set = Some(binding_group); } "
+            "if attribute_result.is_bindless {")
 
         m = re.search(r'const\s+ARGUMENT_BUFFER_NAMES\s*:\s*&\[&str\]\s*=\s*&\[(.*?)\];', msl, re.S)
         if not m:
@@ -98,6 +174,59 @@ def register(gen, T):
                 and re.search(r'if let Some\(binding_group\) = attribute_result\.binding_group_override \{ cb_ir\.lang_binding\.set = Some\(binding_group\); \}', ty_globals) is not None
                 and ty_globals.find("gv_ir.lang_slot = new_binding;") < ty_globals.find("gv_ir.lang_slot.set = Some(binding_group);")
                 and ty_globals.find("cb_ir.lang_binding = new_binding;") < ty_globals.find("cb_ir.lang_binding.set = Some(binding_group);")),
+            # ---- front end, per declarator: every declarator of a declaration starts from a FRESH language binding
+            # (nothing but the attribute result, the base type and the storage class is computed before the loop over the
+            # declarators; the binding that the annotations write is the `lang_slot` of the global `insert_global` has
+            # just pushed with `LanguageBinding::default()`; no other local holds binding state)
+            ("langSlotFreshPerDeclarator", lambda: ty_gv.startswith(
+                "let (base_id, storage_class) = parse_globaltype(&gv.global_type, context)?; "
+                "let attribute_result = parse_attributes_for_global(&gv.attributes, context)?; "
+                "let mut defs = vec![]; for global_variable in &gv.defs {")
+                and re.findall(r'let mut (\w+)', ty_gv) == ["defs"]
+                and len(re.findall(r'\bfor\b', ty_gv)) == 2
+                and len(re.findall(r'LanguageBinding', ty_gv)) == 2
+                and len(re.findall(r'lang_slot', ty_gv)) == len(re.findall(r'gv_ir\.lang_slot', ty_gv)) == 6
+                and len(re.findall(r'\bgv_ir\b', ty_gv)) == 6 + 6
+                and ty_gv.count(gv_fresh + "for location_annotation in &global_variable.location_annotations {") == 1
+                and len(re.findall(r'global_registry', ty_gv)) == 1
+                and re.search(r'let id = ir::GlobalId\(self\.module\.global_registry\.len\(\) as u32\); '
+                              r'self\.module\.global_registry\.push\(ir::GlobalVariable \{[^}]*lang_slot: ir::LanguageBinding::default\(\),[^}]*\}\);',
+                              ty_insert) is not None
+                and len(re.findall(r'global_registry\.push', ty_insert)) == 1
+                and re.search(r'Ok\(id\)$', ty_insert) is not None),
+            # nobody else writes a language binding: assignments only in globals.rs (the six mirrored ones), struct-literal
+            # initialisations only `default()` (new global, new cbuffer, intrinsic globals) or the cbuffer's own binding
+            # (simplify_cbuffers)
+            ("langBindingHasNoOtherWriter", lambda: lang_binding_writers() == (
+                [("typer/src/typer/globals.rs", 6)],
+                [("ir/src/intrinsic_data.rs", "LanguageBinding::default()"),
+                 ("ir/src/simplify_cbuffers.rs", "cbuffer.lang_binding"),
+                 ("typer/src/typer/globals.rs", "ir::LanguageBinding::default()"),
+                 ("typer/src/typer/scopes.rs", "ir::LanguageBinding::default()")])),
+            ("annotationLoopShape", lambda: ty_gv.count(gv_ann_loop) == 1),
+            ("attributeOverridesAfterAnnotations", lambda: ty_gv.endswith(gv_ann_loop + gv_tail)),
+            ("staticSamplerNeedsExtern", lambda: re.search(
+                r'if let Some\(ast::Initializer::StaticSampler\(properties\)\) = &global_variable\.init \{ var_init = None; '
+                r'static_sampler = Some\(super::pipelines::parse_static_sampler\(properties, context\)\?\); '
+                r'if storage_class != ir::GlobalStorage::Extern \{ return Err\(TyperError::StaticSamplerUnexpectedStorageClass\( name\.location, \)\); \} \} '
+                r'else \{ var_init = parse_initializer_opt\(', ty_gv) is not None
+                and ty_gv.find("StaticSamplerUnexpectedStorageClass") < ty_gv.find("context.insert_global(")),
+            # the whole attribute loop, statement by statement (Model.SlotsFront.attrLoop / attrStep): the result starts
+            # empty, every well-formed attribute overwrites its field(s), every other shape returns an error
+            ("attributeFoldLaterWins", lambda: ty_attr == ATTR_FN and ty_u32 == U32_FN),
+            ("storageClassLoopShape", lambda: ty_storage.count(STORAGE_LOOP) == 1
+                and ty_storage.startswith("let mut ty = parse_type_for_usage(global_type, TypePosition::Global, context)?; " + STORAGE_LOOP)
+                and ty_storage.endswith("Ok((ty, global_storage))")
+                and ty_gv.startswith("let (base_id, storage_class) = parse_globaltype(&gv.global_type, context)?;")
+                and len(re.findall(r'storage_class', ty_gv)) == 3),
+            ("cbufferAnnotationLoopShape", lambda: ty_cb.count(cb_ann_loop) == 1
+                and ty_cb.startswith("let attribute_result = parse_attributes_for_global(&cb.attributes, context)?;")
+                and re.search(r'context\.module\.cbuffer_registry\.push\(ir::ConstantBuffer \{[^}]*lang_binding: ir::LanguageBinding::default\(\),[^}]*\}\); '
+                              r'let cb_ir = &mut', ty_cb) is not None
+                and ty_cb.endswith(cb_ann_loop[-len("if attribute_result.is_bindless {"):] + CB_BINDLESS_TAIL[len("if attribute_result.is_bindless {"):])
+                and ty_cb.endswith(CB_BINDLESS_TAIL)
+                and len(re.findall(r'lang_binding', ty_cb)) == 6
+                and len(re.findall(r'parse_attributes_for_global\(', normws(ty_src))) == 3),
             ("typerDefaultBindGroupProperty", lambda: re.search(r'default_bind_group_index: 0,', ty_pipes) is not None
                 and re.search(r'"DefaultBindGroup" => \{ let value = extract_uint32\(&property\.value, context\)\?; pipeline\.default_bind_group_index = value; \}', ty_pipes) is not None
                 and len(re.findall(r'default_bind_group_index', ty_pipes)) == 2),
@@ -161,7 +290,7 @@ def register(gen, T):
         for k, f in facts:
             try:
                 v = bool(f())
-            except (IndexError, ValueError):
+            except (IndexError, ValueError, TypeError):
                 v = False
             vals.append(f"{k} := {'true' if v else 'false'}")
         out.append("def compileShape : CompileShape := { " + ", ".join(vals) + " }\n\n")
